@@ -111,7 +111,7 @@ def signalPool (s : St) (k : Nat) : St :=
 def stepOwner (s : St) : Option St :=
   match s.opc with
   | .spawn i =>
-    some { setCl s i (fun cl => { cl with pc := .start }) with
+    some { setCl s i (fun _ => { pc := .start }) with          -- a new client thread, in its initial state
            opc := if i + 1 < s.cl.size then .spawn (i + 1) else .joinC 0 }
   | .joinC i =>
     if (s.cl[i]?).map (·.pc) = some .done then
